@@ -2,6 +2,7 @@ package main
 
 import (
 	"math"
+	"math/big"
 	"math/rand"
 
 	clipper "github.com/bolom009/go-clipper2"
@@ -24,6 +25,7 @@ type InflateEv struct {
 	Ok       bool   `json:"ok"`
 	Sol      Paths  `json:"sol"`
 	Sol2Same bool   `json:"sol2same"`
+	KV       MagVar `json:"kv"` // the same call with paths, delta and arc tolerance multiplied by k, mapped back to base units
 	ArgsSame bool   `json:"argsSame"`
 	Probes   []Pt   `json:"probes"`
 	Hints    int    `json:"hints"`
@@ -31,19 +33,29 @@ type InflateEv struct {
 }
 
 func callInflate(e *InflateEv) (Paths, string) {
+	res, out := callInflateK(e, toPaths64(e.Paths), 1)
+	return fromPaths64(res), out
+}
+
+// callInflateK: the call of the event with every length multiplied by k (k = 1: the call itself). For k > 1 the
+// arc tolerance is always given explicitly (the default, a quarter unit, would not scale with the input).
+func callInflateK(e *InflateEv, in clipper.Paths64, k float64) (clipper.Paths64, string) {
 	var res clipper.Paths64
-	in := toPaths64(e.Paths)
-	delta := float64(e.Delta4) / 4
+	delta := float64(e.Delta4) / 4 * k
+	arc := float64(e.Arc4) / 4 * k
+	if k > 1 && e.Arc4 == 0 {
+		arc = 0.25 * k
+	}
 	out := safeCall(func() {
 		if e.Api == "InflatePaths64" {
 			opts := []clipper.InflateOption{clipper.WithMitterLimit(float64(e.Miter4) / 4)}
-			if e.Arc4 > 0 {
-				opts = append(opts, clipper.WithArcTolerance(float64(e.Arc4)/4))
+			if arc > 0 {
+				opts = append(opts, clipper.WithArcTolerance(arc))
 			}
 			res = clipper.InflatePaths64(in, delta, clipper.JoinType(e.Jt), clipper.EndType(e.Et), opts...)
 			return
 		}
-		co := clipper.NewClipperOffset(float64(e.Miter4)/4, float64(e.Arc4)/4, false, false)
+		co := clipper.NewClipperOffset(float64(e.Miter4)/4, arc, false, false)
 		if e.Split > 0 && e.Split < len(in) {
 			co.AddPaths(in[:e.Split], clipper.JoinType(e.Jt), clipper.EndType(e.Et))
 			co.AddPaths(in[e.Split:], clipper.JoinType(e.Jt), clipper.EndType(e.Et))
@@ -53,7 +65,7 @@ func callInflate(e *InflateEv) (Paths, string) {
 		res = clipper.Paths64{{{X: 3, Y: 3}}}
 		co.Execute64(delta, &res)
 	})
-	return fromPaths64(res), out
+	return res, out
 }
 
 // kTimes1000 returns the distance factor k of the property, as an upper enclosure times 1000.
@@ -233,9 +245,38 @@ func execInflate(r *rand.Rand, e *InflateEv) {
 	p0 := clonePaths(e.Paths)
 	sol, out := callInflate(e)
 	e.Sol, e.Out, e.Ok = nz(sol), out, true
-	e.ArgsSame = equalPaths(p0, e.Paths)
+	e.ArgsSame = equalPaths(p0, e.Paths) && argsUnchanged()
 	sol2, _ := callInflate(e)
 	e.Sol2Same = equalPaths(sol, sol2)
+	// magnitude: the same call with every length multiplied by k (power of two or general, 2^20..2^34: beyond,
+	// Ellipse64's own step count for single points, pi sqrt(radius), reaches millions of vertices)
+	{
+		k := big.NewInt(1)
+		if e.KV.K.S != 0 {
+			k = big.NewInt(bigJToInt(e.KV.K)) // replay: the recorded factor
+		} else if r.Intn(2) == 0 {
+			k = big.NewInt(int64(1) << uint(20+r.Intn(15)))
+		} else {
+			k = big.NewInt(1000000 + r.Int63n(int64(1)<<34))
+		}
+		zero := [2]*big.Int{big.NewInt(0), big.NewInt(0)}
+		kf, _ := new(big.Float).SetInt(k).Float64()
+		rk, out := callInflateK(e, mapPaths(e.Paths, zero, k), kf)
+		nv := 0
+		for _, q := range rk {
+			nv += len(q)
+		}
+		if nv > 4000 {
+			// Ellipse64 chooses its own step count from the radius when the arc tolerance allows fewer than three
+			// steps: a single point offset with a tiny delta becomes a 90 000-gon at this scale. The variant is
+			// not recorded (kind "skip"); the specification accepts a skipped variant as it stands.
+			e.KV = MagVar{Kind: "skip", T: [2]BigJ{bigJ64(0), bigJ64(0)}, K: bigJ(k), Out: out, Sol: BPaths{}, Q: Paths{}, QOk: true, A2: bigJ64(0)}
+		} else {
+			e.KV = MagVar{Kind: "k", T: [2]BigJ{bigJ64(0), bigJ64(0)}, K: bigJ(k), Out: out, Sol: paths64B(rk), A2: bigJ64(0)}
+			e.KV.Q, e.KV.QOk = mapBack(rk, zero, k)
+			e.KV.Q = nz(e.KV.Q)
+		}
+	}
 	ad := abs64(e.Delta4)
 	tol4 := tol4Of(e)
 	k := kTimes1000(e)
